@@ -99,7 +99,7 @@ fn l1b(f: &str, flag: u16, a: u16, b: u16) -> String {
         "and" | "or" | "xor" | "test" => {
             let op = match name { "and" => spec::Logic::And, "or" => spec::Logic::Or, "xor" => spec::Logic::Xor, _ => spec::Logic::Test };
             let (r, fl) = if w == 8 { let (r, fl) = spec::logic8(op, a as u8, b as u8); (r as u16, fl) } else { spec::logic16(op, a, b) };
-            (if name == "test" { a } else { r }, spec::merge(flag, fl, spec::STATUS6), !spec::AF)
+            (if name == "test" { a } else { r }, spec::merge(flag, fl, spec::STATUS6 & !spec::AF), 0xFFFF)
         }
         _ => {
             let k = match name { "sal" => spec::Sh::Sal, "shr" => spec::Sh::Shr, "sar" => spec::Sh::Sar, "rol" => spec::Sh::Rol, "ror" => spec::Sh::Ror, "rcl" => spec::Sh::Rcl, _ => spec::Sh::Rcr };
